@@ -378,6 +378,32 @@ func wlOrderRun(which string) func(c *core.Ctx) {
 			}
 		}
 		rec()
+		// second universe: twins that differ beyond an ASCII first letter
+		u2 := []string{"ǆep", "ǅep", "eBay", "EBay", "new-york", "New-York", "ab"}
+		u2Len := 3
+		if c.Thorough() {
+			u2Len = 4
+		}
+		var rec3 func()
+		rec3 = func() {
+			if len(seq) > 0 {
+				h := fnv.New32a()
+				h.Write([]byte(setKey(seq)))
+				if c.MineKey(int(h.Sum32() % 9973)) {
+					s.input(append([]string{}, seq...))
+				}
+			}
+			if len(seq) == u2Len {
+				return
+			}
+			for _, w := range u2 {
+				seq = append(seq, w)
+				rec3()
+				seq = seq[:len(seq)-1]
+			}
+		}
+		seq = seq[:0]
+		rec3()
 		// every sequence of length 4 (thorough 5) over the two twin pairs
 		// (order of twins in the INPUT matters to slice-based normalisers)
 		tw := []string{"ab", "Ab", "polish", "Polish"}
@@ -469,7 +495,7 @@ func init() {
 		ID:    "C08",
 		Level: "model_checking",
 		Build: "inst",
-		Rule: "every input sequence of length 1-3 (thorough 1-4) over the 8-word universe {ab,cd,Polish,polish,Ab,4,éa,Éa} (all permutations and repetitions of every sub-multiset), every sequence of length 4 (thorough 5) over the twin pairs {ab,Ab,polish,Polish}, 7 longer inputs with up to three twin pairs, lists of 2-70000 words and the shipped lists with 0-4 uncapitalisable words added, at lengths 1-5000 x EVERY iteration order of the map ranges inside NewWordList (instrumented copy; full product of the loops' orders for <=3 distinct words, one loop deviating at a time otherwise) x 7 scheme strings x lengths 1-3 x 3-6 separator settings, Entropy() called 3 times under 2 random streams; " +
+		Rule: "every input sequence of length 1-3 (thorough 1-4) over the 8-word universe {ab,cd,Polish,polish,Ab,4,éa,Éa} (all permutations and repetitions of every sub-multiset), every sequence of length 1-3 (thorough 4) over {ǆep,ǅep,eBay,EBay,new-york,New-York,ab}, every sequence of length 4 (thorough 5) over the twin pairs {ab,Ab,polish,Polish}, 7 longer inputs with up to three twin pairs, lists of 2-70000 words and the shipped lists with 0-4 uncapitalisable words added, at lengths 1-5000 x EVERY iteration order of the map ranges inside NewWordList (instrumented copy; full product of the loops' orders for <=3 distinct words, one loop deviating at a time otherwise) x 7 scheme strings x lengths 1-3 x 3-6 separator settings, Entropy() called 3 times under 2 random streams; " +
 			"oracle: documented formula within 4 float32 ulps and bit-identical for the same word set across all orders, permutations, repetitions, calls and streams; non-trivial = distinct (word set, recipe) pairs",
 		Assume:      []string{"Go may iterate a map in any order (spec); the instrumented range visits the keys in the chosen order and skips entries deleted meanwhile, as the spec prescribes", "iteration orders inside golang-set are left to the runtime"},
 		Run:         wlOrderRun("C08"),
